@@ -258,7 +258,7 @@ def run_c09(tier_: str) -> int:
         expect_miss("key-near-miss", index.load_request_schema, (k, 0), (UK,))
         expect_miss("key-near-miss", index.load_response_schema, (k, 0), (UK,))
         expect_miss("key-near-miss", index.load_payload_module, (k, 0, EntityType.request), (UK,))
-    nrand = 4000 if tier_ == "quick" else 400000
+    nrand = 20000 if tier_ == "quick" else 2000000
     spellings = ["", "index", "errors", "types", "kio.schema.metadata", "metadata.v1", "Metadata", "METADATA", "metadata ", " metadata",
                  "metadata_request", "metadataRequest", "request_header ", "fetch_", "_fetch", "v1", "nested", "request"]
     for _ in range(nrand):
